@@ -776,6 +776,17 @@ func (ex *Exec) unflatten(st *State, t types.Type, vals []*Term, pos *int) Value
 				vs.Fields = append(vs.Fields, vals[*pos])
 				*pos++
 			}
+			// representation invariant of the library type (type safety of the heap):
+			// every value of the type ever stored satisfies it
+			allLit := true
+			for _, f := range vs.Fields {
+				if ft, ok := f.(*Term); !ok || !(ft.IsIntLit() || ft.Op == "var") {
+					allLit = false
+				}
+			}
+			if !allLit {
+				st.assume(ex.modelInvariant(t, vs))
+			}
 			return vs
 		}
 		vs.Names = names
